@@ -205,8 +205,15 @@ impl Process {
     }
 
     pub fn tasks(&self) -> Vec<Arc<Task>> {
+        #[cfg(feature = "verif")]
+        crate::verif::point("proc.tasks.r", &self.id, "");
         let ttree = self.tasks.read().unwrap();
         ttree.tasks()
+    }
+
+    #[cfg(feature = "verif")]
+    pub(crate) fn tasks_quiet(&self) -> Vec<Arc<Task>> {
+        self.tasks.read().unwrap().tasks()
     }
 
     pub fn children(&self, tid: &str) -> Vec<Arc<Task>> {
@@ -369,6 +376,8 @@ impl Process {
     }
 
     pub fn push_task(&self, task: Arc<Task>) {
+        #[cfg(feature = "verif")]
+        crate::verif::point("proc.tasks.w", &self.id, &task.id);
         let mut tasks = self.tasks.write().unwrap();
         tasks.push(task);
     }
